@@ -130,8 +130,9 @@ theorem c07_add_shapeFld (S : StrFns) (L : List Mapper) (m : Mapper) (hm : plain
     ∀ f : Fld, add S false m (shapeFld S L f) = shapeFld S (L ++ [m]) f
   | .scalar n o => by
     simp [shapeFld, add, addKey, addVal_fld, c07_keyOf_append]
-  | .nested n o sh own fs => by
+  | .nested n o sh ci fs => by
     simp only [shapeFld, add, addVal_fld, c07_keyOf_append, c07_nk_append, c07_handed_step]
+    generalize ci.desL = own
     have hk : addKey S false m (.nest (nk S L n)) (.sub (handed S L own fs))
         = .nest (nestName (applyKey S m (nk S L n))) := by
       simp [addKey, c07_plain_hit_nest m _ _ hm, newNest]
@@ -167,7 +168,7 @@ theorem c07_foldAdd_shape (S : StrFns) (fs : List Fld) :
 
 theorem c07_shapeFld_nil (S : StrFns) : ∀ f : Fld, shapeFld S [] f = baseFld S false f
   | .scalar n o => by simp [shapeFld, baseFld, keyOf]
-  | .nested n o sh own fs => by simp [shapeFld, baseFld, keyOf, nk, handed, enumsOf, foldAdd]
+  | .nested n o sh own fs => by simp [shapeFld, baseFld, keyOf, nk, handed, enumsOf, foldAdd, CInfo.lst]
 
 theorem c07_shapeFields_nil (S : StrFns) : ∀ fs : List Fld, shapeFields S [] fs = baseFields S false fs
   | [] => by simp [shapeFields, baseFields]
@@ -207,9 +208,9 @@ theorem c07_lookupR_shape_fld (S : StrFns) (L : List Mapper) (fs : List Fld) (fl
   cases fl <;> simp [shapeFld, Fld.name]
 
 theorem c07_lookupR_shape_nest (S : StrFns) (L : List Mapper) (fs : List Fld) (n : String) (o : Bool)
-    (sh : Shape) (own : List Mapper) (fs' : List Fld)
+    (sh : Shape) (own : CInfo) (fs' : List Fld)
     (hn : mkeysNodup (shapeFields S L fs) = true) (hm : Fld.nested n o sh own fs' ∈ fs) :
-    lookupR (.nest (nk S L n)) (shapeFields S L fs) = some (.sub (handed S L own fs')) := by
+    lookupR (.nest (nk S L n)) (shapeFields S L fs) = some (.sub (handed S L own.desL fs')) := by
   apply c07_lookupR_of_mem_nodup _ _ _ (by simpa [mkeysNodup] using hn)
   apply c07_mem_shapeFields S L _ _ fs hm
   simp [shapeFld]
@@ -217,7 +218,7 @@ theorem c07_lookupR_shape_nest (S : StrFns) (L : List Mapper) (fs : List Fld) (n
 /-- an entry found under a `"<k>._mapper"` key belongs to a nested field re-keyed to `k` -/
 theorem c07_shape_nest_inv (S : StrFns) (L : List Mapper) (k : String) (w : MV) :
     ∀ fs : List Fld, lookupR (.nest k) (shapeFields S L fs) = some w →
-      ∃ n o sh own fs', Fld.nested n o sh own fs' ∈ fs ∧ nk S L n = k ∧ w = .sub (handed S L own fs')
+      ∃ n o sh own fs', Fld.nested n o sh own fs' ∈ fs ∧ nk S L n = k ∧ w = .sub (handed S L own.desL fs')
   | [], h => by simp [shapeFields, lookupR] at h
   | f :: fs, h => by
     have hm := mem_of_lookupR _ _ _ h
@@ -234,7 +235,7 @@ theorem c07_shape_nest_inv (S : StrFns) (L : List Mapper) (k : String) (w : MV) 
         · rcases Prod.mk.inj hm with ⟨h1, _⟩
           cases h1
     · -- the entry sits in the tail: find it there by membership (keys need not be distinct here)
-      have : ∃ n o sh own fs', Fld.nested n o sh own fs' ∈ fs ∧ nk S L n = k ∧ w = .sub (handed S L own fs') := by
+      have : ∃ n o sh own fs', Fld.nested n o sh own fs' ∈ fs ∧ nk S L n = k ∧ w = .sub (handed S L own.desL fs') := by
         clear h
         induction fs with
         | nil => simp [shapeFields] at hm
@@ -272,8 +273,8 @@ theorem c07_handed_reagg (S : StrFns) (E : List Mapper) (fs : List Fld)
   simpa using this
 
 theorem c07_reaggF_nested {S : StrFns} {L : List Mapper} {full : List Fld} {n : String} {o : Bool}
-    {sh : Shape} {own : List Mapper} {fs : List Fld} (h : reaggF S L full (.nested n o sh own fs) = true) :
-    own = [] ∧ trackOK S L n = true ∧ noCross S L full n = true ∧ fs ≠ []
+    {sh : Shape} {own : CInfo} {fs : List Fld} (h : reaggF S L full (.nested n o sh own fs) = true) :
+    (own.desL = [] ∧ own.ser = []) ∧ trackOK S L n = true ∧ noCross S L full n = true ∧ fs ≠ []
       ∧ prefixOK S fs [] (enumsOf L) = true ∧ mkeysNodup (shapeFields S (enumsOf L) fs) = true
       ∧ reaggFs S (enumsOf L) fs fs = true := by
   simp only [reaggF, and_true_iff'] at h
@@ -307,12 +308,11 @@ theorem c07_shape_eq_base_f (S : StrFns) :
     have := c07_mvEq_key hd.1
     simp only [shapeFld, this, hk0]
   | .nested n o sh own fs, full, E, hE, hm, hn, hr, hd => by
-    obtain ⟨hown, _, hcross, _, hpre, hnod, hrec⟩ := c07_reaggF_nested hr
-    subst hown
+    obtain ⟨⟨hd0, _⟩, _, hcross, _, hpre, hnod, hrec⟩ := c07_reaggF_nested hr
     rw [hE] at hpre hnod hrec
     have hl := c07_lookupR_shape_fld S E full _ hn hm
     simp only [Fld.name] at hl
-    simp only [shapeFld, dSub, hl, and_true_iff'] at hd
+    simp only [shapeFld, hd0, dSub, hl, and_true_iff'] at hd
     obtain ⟨hd1, hd2, _⟩ := hd
     have hk0 : keyOf S [] n = .key n := rfl
     have hkey : keyOf S E n = .key n := by
@@ -327,8 +327,8 @@ theorem c07_shape_eq_base_f (S : StrFns) :
       have hnk : nk S E n = n := by
         simp only [noCross, hlk, Option.isNone_some, Bool.false_or, beq_iff_eq] at hcross
         exact hcross
-      have hl2 := c07_lookupR_shape_nest S E full n o sh [] fs hn hm
-      rw [hnk, hlk] at hl2
+      have hl2 := c07_lookupR_shape_nest S E full n o sh own fs hn hm
+      rw [hd0, hnk, hlk] at hl2
       injection hl2 with hl2
       subst hl2
       simp only [mvEq, and_true_iff'] at hd1
@@ -337,7 +337,7 @@ theorem c07_shape_eq_base_f (S : StrFns) :
         rw [hE] at this; exact this
       rw [hh, c07_handed_nil] at hd1
       have ih := c07_shape_eq_base_fs S fs fs E hE (fun g hg => hg) hnod hrec hd1.2
-      simp only [shapeFld, hnk, hnn, hkey, hh, c07_handed_nil, ih, hk0]
+      simp only [shapeFld, hd0, hnk, hnn, hkey, hh, c07_handed_nil, ih, hk0]
 end
 
 /-! ### E3: re-aggregating a class under the shape list it was handed gives that shape list again -/
@@ -380,14 +380,15 @@ theorem c07_reagg_f (S : StrFns) :
     simp only [Fld.name] at hl
     simp [baseFld, shapeFld, add, addKey, addVal_fld, c07_stepKey_dict_self S _ n _ hl]
   | .nested n o sh own fs, full, L, hm, hn, hr => by
-    obtain ⟨hown, htrack, hcross, _, hpre, hnod, hrec⟩ := c07_reaggF_nested hr
-    subst hown
+    obtain ⟨⟨hd0, _⟩, htrack, hcross, _, hpre, hnod, hrec⟩ := c07_reaggF_nested hr
     have hl := c07_lookupR_shape_fld S L full _ hn hm
     simp only [Fld.name] at hl
-    have hl2 := c07_lookupR_shape_nest S L full n o sh [] fs hn hm
+    have hl2 := c07_lookupR_shape_nest S L full n o sh own fs hn hm
+    rw [hd0] at hl2
     have hh := c07_handed_reagg S L fs hpre
     have hkey := c07_trackOK htrack
-    simp only [baseFld, shapeFld, add, addVal_fld, c07_stepKey_dict_self S _ n _ hl]
+    simp only [baseFld, shapeFld, CInfo.lst, Bool.false_eq_true, if_false, hd0, add, addVal_fld,
+      c07_stepKey_dict_self S _ n _ hl]
     have hf : foldAdd S false [] (baseFields S false fs) = baseFields S false fs := by simp [foldAdd]
     rw [hf]
     by_cases hhit : hit (.dict (shapeFields S L full)) (.nest n) (.sub (baseFields S false fs)) = true
@@ -469,14 +470,14 @@ theorem c07_nested_aggregate (S : StrFns) (L own : List Mapper) (fs : List Fld) 
 
 /-! ### `Sync` at every level inside the region -/
 
-theorem c07_rtFld_name (S : StrFns) (camel : Bool) (lv : LevelPred) (ms M : MDict) (f : Fld)
-    (p : String × J) (h : rtFld S camel lv ms M f p = true) : f.name = p.1 := by
+theorem c07_rtFld_name (S : StrFns) (camel ku : Bool) (lv : LevelPred) (ms M : MDict) (f : Fld)
+    (p : String × J) (h : rtFld S camel ku lv ms M f p = true) : f.name = p.1 := by
   cases f with
   | scalar n o => simp only [rtFld, and_true_iff', beq_iff_eq] at h; simp [Fld.name, h.1]
   | nested n o sh own fs => simp only [rtFld, and_true_iff', beq_iff_eq] at h; simp [Fld.name, h.1]
 
-theorem c07_rtFields_names (S : StrFns) (camel : Bool) (lv : LevelPred) (ms M : MDict) :
-    ∀ (fs : List Fld) (kvs : List (String × J)), rtFields S camel lv ms M fs kvs = true →
+theorem c07_rtFields_names (S : StrFns) (camel ku : Bool) (lv : LevelPred) (ms M : MDict) :
+    ∀ (fs : List Fld) (kvs : List (String × J)), rtFields S camel ku lv ms M fs kvs = true →
       ∀ p ∈ kvs, ∃ fl ∈ fs, fl.name = p.1
   | [], kvs, h, p, hp => by
     cases kvs with
@@ -489,8 +490,8 @@ theorem c07_rtFields_names (S : StrFns) (camel : Bool) (lv : LevelPred) (ms M : 
       simp only [rtFields, and_true_iff'] at h
       rcases List.mem_cons.mp hp with hp | hp
       · subst hp
-        exact ⟨f, List.mem_cons_self .., c07_rtFld_name S camel lv ms M f p h.1⟩
-      · obtain ⟨fl, hfl, hn⟩ := c07_rtFields_names S camel lv ms M fs rest h.2 p hp
+        exact ⟨f, List.mem_cons_self .., c07_rtFld_name S camel ku lv ms M f p h.1⟩
+      · obtain ⟨fl, hfl, hn⟩ := c07_rtFields_names S camel ku lv ms M fs rest h.2 p hp
         exact ⟨fl, List.mem_cons_of_mem _ hfl, hn⟩
 
 theorem c07_agrees_lookup (S : StrFns) (d : MDict) (L : List Mapper) (fs : List Fld)
@@ -542,10 +543,10 @@ theorem c07_nestedOK_mono (opt : Bool) (shape : Shape) (g g' : J → Bool)
       exact fun y hy => h y (hv y hy)
 
 theorem c07_subDeser_shape (S : StrFns) (L : List Mapper) (full : List Fld) (n : String) (o : Bool)
-    (sh : Shape) (own : List Mapper) (fs : List Fld)
+    (sh : Shape) (own : CInfo) (fs : List Fld)
     (hn : mkeysNodup (shapeFields S L full) = true) (hm : Fld.nested n o sh own fs ∈ full)
     (ht : trackOK S L n = true) :
-    subDeser (shapeFields S L full) n = some (handed S L own fs) := by
+    subDeser (shapeFields S L full) n = some (handed S L own.desL fs) := by
   have hl := c07_lookupR_shape_fld S L full _ hn hm
   simp only [Fld.name] at hl
   have hl2 := c07_lookupR_shape_nest S L full n o sh own fs hn hm
@@ -617,42 +618,48 @@ theorem c07_camelRel_top (camel : Bool) (own : List Mapper) (ov : Option MDict) 
 mutual
 theorem c07_sync_fields (S : StrFns) (camel : Bool)
     (hc : camel = true → ∀ s, S.camel (S.camel s) = S.camel s) :
-    ∀ (sub full : List Fld) (ms : MDict) (Ls Ld : List Mapper) (kvs : List (String × J)),
+    ∀ (sub full : List Fld) (ku : Bool) (ms : MDict) (Ls Ld : List Mapper) (kvs : List (String × J)),
       CamelRel camel Ls Ld →
       Ld.all plainMapper = true → mkeysNodup (shapeFields S Ld full) = true → AgreesFs S ms Ls sub →
       (∀ f ∈ sub, f ∈ full) → regionFs S camel Ld sub = true →
-      rtFields S camel (levelDomE S) ms (shapeFields S Ld full) sub kvs = true →
-      rtFields S camel (levelOK S) ms (shapeFields S Ld full) sub kvs = true
-  | [], _, _, _, _, kvs, _, _, _, _, _, _, h => by
+      rtFields S camel ku (levelDomE S) ms (shapeFields S Ld full) sub kvs = true →
+      rtFields S camel ku (levelOK S) ms (shapeFields S Ld full) sub kvs = true
+  | [], _, _, _, _, _, kvs, _, _, _, _, _, _, h => by
     cases kvs with
     | nil => simp [rtFields]
     | cons a b => simp [rtFields] at h
-  | f :: sub, full, ms, Ls, Ld, kvs, hrel, hp, hn, ha, hs, hr, h => by
+  | f :: sub, full, ku, ms, Ls, Ld, kvs, hrel, hp, hn, ha, hs, hr, h => by
     cases kvs with
     | nil => simp [rtFields] at h
     | cons p rest =>
       simp only [AgreesFs] at ha
       simp only [regionFs, and_true_iff'] at hr
       simp only [rtFields, and_true_iff'] at h ⊢
-      exact ⟨c07_sync_fld S camel hc f full ms Ls Ld p hrel hp hn ha.1 (hs f (List.mem_cons_self ..))
+      exact ⟨c07_sync_fld S camel hc f full ku ms Ls Ld p hrel hp hn ha.1 (hs f (List.mem_cons_self ..))
           hr.1 h.1,
-        c07_sync_fields S camel hc sub full ms Ls Ld rest hrel hp hn ha.2
+        c07_sync_fields S camel hc sub full ku ms Ls Ld rest hrel hp hn ha.2
           (fun g hg => hs g (List.mem_cons_of_mem _ hg)) hr.2 h.2⟩
 theorem c07_sync_fld (S : StrFns) (camel : Bool)
     (hc : camel = true → ∀ s, S.camel (S.camel s) = S.camel s) :
-    ∀ (f : Fld) (full : List Fld) (ms : MDict) (Ls Ld : List Mapper) (p : String × J),
+    ∀ (f : Fld) (full : List Fld) (ku : Bool) (ms : MDict) (Ls Ld : List Mapper) (p : String × J),
       CamelRel camel Ls Ld →
       Ld.all plainMapper = true → mkeysNodup (shapeFields S Ld full) = true → AgreesF S ms Ls f →
       f ∈ full → regionF S camel Ld f = true →
-      rtFld S camel (levelDomE S) ms (shapeFields S Ld full) f p = true →
-      rtFld S camel (levelOK S) ms (shapeFields S Ld full) f p = true
-  | .scalar n o, _, _, _, _, _, _, _, _, _, _, _, h => by simpa [rtFld] using h
-  | .nested n o sh own fs, full, ms, Ls, Ld, p, hrel, hp, hn, ha, hm, hr, h => by
+      rtFld S camel ku (levelDomE S) ms (shapeFields S Ld full) f p = true →
+      rtFld S camel ku (levelOK S) ms (shapeFields S Ld full) f p = true
+  | .scalar n o, _, _, _, _, _, _, _, _, _, _, _, _, h => by simpa [rtFld] using h
+  | .nested n o sh ci fs, full, ku, ms, Ls, Ld, p, hrel, hp, hn, ha, hm, hr, h => by
     simp only [regionF, and_true_iff'] at hr
-    obtain ⟨⟨⟨⟨⟨⟨htrack, hown⟩, hne⟩, hpre⟩, hreagg⟩, hnodc⟩, hregion⟩ := hr
+    obtain ⟨⟨⟨⟨⟨⟨⟨hdes, htrack⟩, hown⟩, hne⟩, hpre⟩, hreagg⟩, hnodc⟩, hregion⟩ := hr
+    have hdesL : ci.desL = ci.ser := by
+      unfold CInfo.desL; cases hd : ci.des with
+      | none => rfl
+      | some l => rw [hd] at hdes; simp at hdes
+    generalize hown' : ci.ser = own at *
     have hne' : fs ≠ [] := by intro e; subst e; simp at hne
     simp only [AgreesF] at ha
     obtain ⟨_, q, hq, hrec⟩ := ha
+    rw [hown'] at hrec
     have hsub : subSer ms n = q := by simp [subSer, hq]
     have hLs' : nestedList own n Ls = own ++ enumsOf Ls := by
       simp [nestedList, c07_plain_filterMap_through n Ls (c07_camelRel_plain camel Ls Ld hrel hp)]
@@ -660,13 +667,13 @@ theorem c07_sync_fld (S : StrFns) (camel : Bool)
     have hhand := c07_handed_shape S Ld own fs hown hpre
     have hM' : aggregate S false own fs (subDeser (shapeFields S Ld full) n) camel
         = shapeFields S (own ++ enumsOf Ld ++ camelTail camel) fs := by
-      rw [c07_subDeser_shape S Ld full n o sh own fs hn hm htrack, hhand,
+      rw [c07_subDeser_shape S Ld full n o sh ci fs hn hm htrack, hdesL, hhand,
         c07_nested_aggregate S _ own fs camel hne' hreagg hnodc]
     have hplain' : (own ++ enumsOf Ld ++ camelTail camel).all plainMapper = true := by
       rw [List.all_append, List.all_append, hown, c07_enumsOf_plain]
       cases camel <;> rfl
     have hrel' := c07_camelRel_next camel Ls Ld own hrel
-    simp only [rtFld, and_true_iff'] at h ⊢
+    simp only [rtFld, and_true_iff', hdesL] at h ⊢
     refine ⟨h.1, ?_⟩
     rw [hM', hsub] at h ⊢
     refine c07_nestedOK_mono o sh _ _ ?_ p.2 h.2
@@ -674,11 +681,11 @@ theorem c07_sync_fld (S : StrFns) (camel : Bool)
     cases y with
     | obj kvs =>
       simp only [rtObj, and_true_iff'] at hy ⊢
-      have hrt := c07_sync_fields S camel hc fs fs q _ _ kvs hrel' hplain' hnodc hrec
-        (fun g hg => hg) hregion hy.2
-      refine ⟨c07_level_of_lookups S q _ false kvs hy.1 ?_, hrt⟩
+      have hrt := c07_sync_fields S camel hc fs fs _ q _ _ kvs hrel' hplain' hnodc hrec
+        (fun g hg => hg) hregion hy.2.2
+      refine ⟨c07_level_of_lookups S q _ false kvs hy.1 ?_, hy.2.1, hrt⟩
       intro e he
-      obtain ⟨fl, hfl, hname⟩ := c07_rtFields_names S camel _ _ _ fs kvs hy.2 e he
+      obtain ⟨fl, hfl, hname⟩ := c07_rtFields_names S camel _ _ _ _ fs kvs hy.2.2 e he
       rw [← hname, c07_lookupR_shape_fld S _ fs fl hnodc hfl, c07_agrees_lookup S q _ fs hrec fl hfl]
       exact congrArg some (c07_camelRel_keyOf S camel hc _ _ hrel' fl.name)
     | null => simp [rtObj] at hy
